@@ -83,6 +83,7 @@ class Executor(object):
         self.events = []
         self.assume_feasible = False
         self.debug_merge = None
+        self.share_track = None
         self.linear_normalize = False
         self.effect_seen = set()
         self.varsets = {}
@@ -169,6 +170,8 @@ class Executor(object):
                 self.effects.append((st.pc, p.obj, pos))
                 what = 'package-level variable ' + p.obj[2:] if str(p.obj).startswith('g:') else 'memory that existed before the call (caller data or shared state)'
                 self.oblige('effect', st, guard if not isinstance(guard, bool) else True, 'store to ' + what, pos)
+        if self.share_track is not None:
+            self.share_track(self, st, p, pos)
         if p.obj not in st.heap and str(p.obj).startswith('g:') and not p.path:
             st.heap[p.obj] = None      # variable of a package outside the dump (e.g. flag.Usage)
         tree = st.heap[p.obj]
